@@ -61,6 +61,7 @@ partial def decExpr (j : Json) : Except String Expr := do
   | "not" => do .ok (.not (← arg 1))
   | "like" => do let p ← (arr.getD 2 .null).getStr?; .ok (.like (← arg 1) p.toList)
   | "split" => do let p ← (arr.getD 2 .null).getStr?; .ok (.split (← arg 1) p.toList)
+  | "splitne" => do let p ← (arr.getD 2 .null).getStr?; .ok (.splitNE (← arg 1) p.toList)
   | t => jErr s!"expr tag {t}"
 
 def decAggKind (s : String) : Except String AggKind :=
